@@ -214,9 +214,10 @@ pub fn handle(op: &str, cmd: &Value) -> Value {
             use scale::{Decode, Encode};
             use scale_info::{Field, Variant, TypeDefComposite, TypeDefVariant, TypeDefTuple, TypeDefSequence, TypeDefArray, TypeDefCompact, TypeDefBitSequence, TypeParameter, TypeDef, PortableType, PortableRegistry};
             let l = |k: &str| cmd["lens"][k].as_u64().unwrap_or(0) as usize;
+            let idv = cmd["id"].as_u64().unwrap_or(0) as u32;
             if cmd["lens"].as_object().map(|o| o.values().any(|v| v.as_u64().unwrap_or(0) > (1 << 21))).unwrap_or(false) { return json!({"too_large": true, "roundtrip_ok": true, "ref_encode_ok": true}); }
             let strs = |n: usize| (0..n).map(|i| format!("d{i}")).collect::<Vec<String>>();
-            let field = |docs: usize| Field::<PortableForm>::new(Some("f".to_string()), 0u32.into(), Some("T".to_string()), strs(docs));
+            let field = |docs: usize| Field::<PortableForm>::new(Some("f".to_string()), idv.into(), Some("T".to_string()), strs(docs));
             let variant = |i: usize, nf: usize, nd: usize| Variant::<PortableForm>::new(format!("V{i}"), (0..nf).map(|_| field(0)).collect(), (i % 256) as u8, strs(nd));
             let entry = cmd["entry"].as_str().unwrap();
             let def: TypeDef<PortableForm> = match (entry, cmd["defkind"].as_u64().unwrap_or(0)) {
@@ -224,11 +225,11 @@ pub fn handle(op: &str, cmd: &Value) -> Value {
                 ("Variant", _) => TypeDefVariant::new(vec![variant(0, l("variant.fields"), l("variant.docs"))]).into(),
                 (_, 0) => TypeDefComposite::new((0..l("composite.fields")).map(|_| field(0))).into(),
                 (_, 1) => TypeDefVariant::new((0..l("variant.variants")).map(|i| variant(i, 0, 0))).into(),
-                (_, 2) => TypeDefSequence::new(0u32.into()).into(),
-                (_, 3) => TypeDefArray::new(3, 0u32.into()).into(),
-                (_, 4) => TypeDefTuple::new_portable((0..l("tuple.fields")).map(|_| 0u32.into())).into(),
-                (_, 6) => TypeDefCompact::new(0u32.into()).into(),
-                (_, 7) => TypeDefBitSequence::new_portable(0u32.into(), 0u32.into()).into(),
+                (_, 2) => TypeDefSequence::new(idv.into()).into(),
+                (_, 3) => TypeDefArray::new(3, idv.into()).into(),
+                (_, 4) => TypeDefTuple::new_portable((0..l("tuple.fields")).map(|_| idv.into())).into(),
+                (_, 6) => TypeDefCompact::new(idv.into()).into(),
+                (_, 7) => TypeDefBitSequence::new_portable(idv.into(), idv.into()).into(),
                 _ => TypeDefPrimitive::U8.into(),
             };
             let t = Type::new(Path::from_segments_unchecked(strs(if entry == "Type" { l("path.segments") } else { 1 })), (0..if entry == "Type" { l("type.type_params") } else { 0 }).map(|i| TypeParameter::new_portable(format!("P{i}"), None)).collect::<Vec<_>>(), def, strs(if entry == "Type" { l("type.docs") } else { 0 }));
